@@ -18,12 +18,13 @@ pkgdir=$(grep -o -E '`?(vm|env|parser|core|ast/astutil|packages)/?`?' $SRC/READM
 [ -z "$pkgdir" ] && pkgdir=vm
 pkgline=$(grep -m1 '^package ' "$demo" | awk '{print $2}')
 case "$pkgline" in env*) pkgdir=env;; vm*) pkgdir=vm;; parser*) pkgdir=parser;; core*) pkgdir=core;; astutil*) pkgdir=ast/astutil;; main) pkgdir=.;; *) pkgdir="zzdemo_$pkgline"; mkdir -p "$WT/$pkgdir";; esac
-run_demo() { ( cd "$WT" && cp "$demo" "$pkgdir/zz_seed_demo_test.go" && timeout 600 go test -vet=off -count=1 -timeout 300s ./$pkgdir/ > "$1" 2>&1; rc=$?; rm -f "$pkgdir/zz_seed_demo_test.go"; exit $rc ); }
+names=$(grep -o -E '^func (Test[A-Za-z0-9_]+)' "$demo" | awk '{print $2}' | paste -sd'|')
+run_demo() { ( cd "$WT" && cp "$demo" "$pkgdir/zz_seed_demo_test.go" && timeout 600 go test -vet=off -count=1 -timeout 300s -run "^($names)\$" ./$pkgdir/ > "$1" 2>&1; rc=$?; rm -f "$pkgdir/zz_seed_demo_test.go"; exit $rc ); }
 run_demo "$OUT/demo_clean.log"; clean_rc=$?
 ( cd "$WT" && git apply --3way "$SRC/patch.diff" >/dev/null 2>&1 || patch -p1 -s < "$SRC/patch.diff" ) > "$OUT/apply.log" 2>&1 || { echo "$D: PATCH DOES NOT APPLY"; exit 3; }
 ( cd "$WT" && git diff > "$OUT/patch_refreshed.diff" )
 ( cd "$WT" && go build ./... && timeout 900 go test -vet=off -count=1 -timeout 300s ./... ) > "$OUT/suite.log" 2>&1
-suite="green"; grep -E '^(--- FAIL|panic:)' "$OUT/suite.log" | grep -v TestRunInteractive | grep -q . && suite="RED"
+suite="green"; grep -E '^(--- FAIL|panic:)' "$OUT/suite.log" | grep -v -E 'TestRunInteractive|Example_vmHttp' | grep -q . && suite="RED"
 grep -q "build failed\|cannot\|undefined:" "$OUT/suite.log" && grep -q "^FAIL.*\[build failed\]" "$OUT/suite.log" && suite="BUILD-FAILED"
 run_demo "$OUT/demo_patched.log"; patched_rc=$?
 VERIF_REPO="$WT" VERIF_OUT="$OUT" setsid /verif/check.sh "$PROP" "$TIER" > "$OUT/check.log" 2>&1 &
